@@ -633,12 +633,72 @@ pub fn check(op: &Op) -> CaseOut {
 	}
 }
 
+/// Arrays with one element that fails when evaluated: an operation that does not need the elements keeps the length
+/// and the positions of the plain array; the healthy elements are readable, the failing one fails at *its* index.
+/// (operation with `@A` for the array, mapping from the plain contents to the expected contents)
+type Remap = fn(Vec<Option<i64>>) -> Vec<Option<i64>>;
+const LAZY_ELEMENT_OPS: &[(&str, Remap)] = &[
+	("@A", |v| v),
+	("std.filter(function(x) true, @A)", |v| v),
+	("std.filter(function(x) true, @A)[1:]", |v| v[1..].to_vec()),
+	("std.filterMap(function(x) true, function(x) x, @A)", |v| v),
+	("@A + []", |v| v),
+	("[] + @A + [40]", |v| [v, vec![Some(40)]].concat()),
+	("@A[0:3]", |v| v),
+	("@A[::1]", |v| v),
+	("@A[::2]", |v| vec![v[0], v[2]]),
+	("std.slice(@A, 1, 3, 1)", |v| v[1..].to_vec()),
+	("std.reverse(@A)", |v| v.into_iter().rev().collect()),
+	("std.repeat(@A, 2)", |v| [v.clone(), v].concat()),
+	("[x for x in @A]", |v| v),
+	("[x for x in @A if true]", |v| v),
+	("std.makeArray(3, function(i) @A[i])", |v| v),
+	("std.mapWithIndex(function(i, x) x, @A)", |v| v),
+	("std.map(function(x) x, @A)", |v| v),
+	("std.flattenArrays([@A, [40]])", |v| [v, vec![Some(40)]].concat()),
+	// (std.flatMap evaluates the elements it is given: recorded under C10 as the eager-library-functions finding)
+	("std.removeAt(@A, 0)", |v| v[1..].to_vec()),
+	("std.objectValues({ a: @A[0], b: @A[1], c: @A[2] })", |v| v),
+	("std.reverse(std.filter(function(x) true, std.reverse(@A)))", |v| v),
+];
+fn lazy_element_case(i: u64) -> CaseOut {
+	let (op, remap) = LAZY_ELEMENT_OPS[(i / 3) as usize];
+	let bad = (i % 3) as usize;
+	let plain: Vec<Option<i64>> = (0..3).map(|k| if k == bad { None } else { Some(10 * (k as i64 + 1)) }).collect();
+	let arr = format!("[{}]", plain.iter().map(|x| x.map(|v| v.to_string()).unwrap_or("error 'boom'".to_owned())).collect::<Vec<_>>().join(", "));
+	let expr = op.replace("@A", &arr);
+	let want = remap(plain);
+	let mut problems = vec![];
+	match jr::eval(&format!("std.length({expr})"), &jr::Opts::default()) {
+		Outcome::Val(v) if v == want.len().to_string() => {}
+		other => problems.push(format!("std.length: expected {}, got {}", want.len(), other.short())),
+	}
+	for (k, w) in want.iter().enumerate() {
+		let got = jr::eval(&format!("({expr})[{k}]"), &jr::Opts::default());
+		match (w, &got) {
+			(Some(v), Outcome::Val(g)) if *g == v.to_string() => {}
+			(None, Outcome::Err(_, m)) if m.contains("boom") => {}
+			_ => problems.push(format!("[{k}]: expected {}, got {}", w.map(|v| v.to_string()).unwrap_or("the element's own error".into()), got.short())),
+		}
+	}
+	match jr::eval(&format!("({expr})[{}]", want.len()), &jr::Opts::default()) {
+		Outcome::Err(_, m) if !m.contains("boom") => {}
+		other => problems.push(format!("[{}] (one past the end): expected an index error, got {}", want.len(), other.short())),
+	}
+	if problems.is_empty() {
+		CaseOut::pass(expr, true).class("failing-element")
+	} else {
+		CaseOut::fail(expr, problems.join("\n"))
+	}
+}
+
 pub fn run(run: &Run) {
 	run.set_rule("compositions of array-producing operations (literal, comprehension, range, makeArray, repeat, +, slices in both syntaxes, reverse, map, mapWithIndex, filter, filterMap, flatMap, flattenArrays, objectValues[All], objectKeysValues, stringChars, split, encodeUTF8, importbin, removeAt, prune) decided against a plain-vector model; each case probes length, every index from -2 to len+2 (value or error), ==, <, +, toString, manifest, iteration, fold, reverse, count/member/find, sub-slices. Non-trivial = depth>=2 containing at least one non-copying view; distinct by expression text.");
 	run.assume("the model (harness/src/props/c08.rs) transcribes the documented meaning of each operation on plain vectors; negative slice bounds count from the end (jrsonnet/go-jsonnet behaviour)");
 	// stage 0: regression seeds, one per repaired defect (known_findings.jsonl, status "fixed")
 	let regs = regressions();
 	run.enumerate("regressions", regs.len() as u64, |i| check(&regs[i as usize]));
+	run.enumerate("failing-elements", 3 * LAZY_ELEMENT_OPS.len() as u64, lazy_element_case);
 	// stage 1: exhaustive depth 2 (+ base) over a fixed parameter grid
 	let bases = enum_bases();
 	let un = enum_unaries();
@@ -697,6 +757,7 @@ pub fn replay(_run: &Run, stage: &str, tape: Option<&[u16]>, v: &Value) -> Optio
 			let i = v["extra"]["index"].as_u64()?;
 			Some(check(regressions().get(i as usize)?))
 		}
+		("failing-elements", _) => Some(lazy_element_case(v["extra"]["index"].as_u64()?)),
 		("exhaustive-depth2", _) => {
 			let i = v["extra"]["index"].as_u64()?;
 			let bases = enum_bases();
